@@ -154,7 +154,24 @@ pub fn execute(seed: u64, prog: &[Op]) -> Result<Outcome, String> {
         }
         let _ = mon::watch_events();
         if how == "drop" {
-            drop(obj);
+            match obj {
+                Obj::Priv(b) => {
+                    // run the destructor in place, then look at the bytes of the VALUE itself (the struct, not only the
+                    // buffer `as_bytes()` points into): an inline copy of the key kept in another field would sit here
+                    let raw = Box::into_raw(b);
+                    let n = std::mem::size_of::<PrivateKey>();
+                    let left: Vec<u8> = unsafe {
+                        std::ptr::drop_in_place(raw);
+                        let v = std::slice::from_raw_parts(raw as *const u8, n).to_vec();
+                        std::alloc::dealloc(raw as *mut u8, std::alloc::Layout::new::<PrivateKey>());
+                        v
+                    };
+                    if expect.len() == 32 && left.windows(32).any(|w| w == expect) {
+                        return Err(format!("after drop the {}-byte PrivateKey value itself still contains the key bytes (a field other than the byte buffer holds a copy)", n));
+                    }
+                }
+                other => drop(other),
+            }
         } else {
             let _ = guarded(move || {
                 let _owned = obj;
@@ -498,6 +515,9 @@ fn cli_exit_scan(rep: &Report) {
         ("encrypt-unknown-recipient", vec!["encrypt", "plain.bin", "-t", "nobody", "-f", "alice", "-k", "kr.txt", "-o", "out.bin", "--env-pass"], "alicepw", false),
         ("encrypt-missing-input", vec!["encrypt", "nosuch.bin", "-t", "bob", "-f", "alice", "-k", "kr.txt", "-o", "out.bin", "--env-pass"], "alicepw", false),
         ("decrypt-password-file-given", vec!["decrypt", "plain.bin", "-t", "bob", "-k", "kr.txt", "-o", "out.bin", "--env-pass"], "bobpw", false),
+        // the reader of stderr (a log collector) goes away after the progress text: printing the final status fails
+        ("encrypt-stderr-reader-leaves", vec!["encrypt", "plain.bin", "-t", "bob", "-f", "alice", "-k", "kr.txt", "-o", "out.bin", "--env-pass"], "alicepw", false),
+        ("decrypt-stderr-reader-leaves", vec!["decrypt", "ct.ktl", "-t", "bob", "-k", "kr.txt", "-o", "out.bin", "--env-pass"], "bobpw", false),
     ];
     let kr_bob_only = crate::fx::keyring(&[(&bob, true)]);
     use rayon::prelude::*;
@@ -514,8 +534,18 @@ fn cli_exit_scan(rep: &Report) {
             let log = sc.path("scan.log");
             let mut c = Cmd::new(args).env("KESTREL_PASSWORD", pw).env("LD_PRELOAD", shim).env("KV_SCAN_HEX", &format!("{},{}", hx(&alice.sk), hx(&bob.sk))).env("KV_SCAN_LOG", log.to_str().unwrap());
             c.stdout_closed_pipe = *closed;
+            if name.ends_with("stderr-reader-leaves") {
+                c.stderr_reader_leaves_after = Some(13); // "Encrypting..." / "Decrypting..."
+            }
             let out = proc::run(&c, &sc.0);
-            if out.signal.is_some() || out.timed_out {
+            if let Some(sig) = out.signal {
+                // killed by a signal of its own making (abort, segfault) while the key was unlocked: no destructor ran
+                if [4, 6, 7, 8, 11].contains(&sig) {
+                    return Err(format!("the process died by signal {} with the private key unlocked: no destructor ran, the key was released unwiped", sig));
+                }
+                return Ok(());
+            }
+            if out.timed_out {
                 return Ok(()); // no exit handlers ran: nothing observed
             }
             let text = String::from_utf8_lossy(&std::fs::read(&log).unwrap_or_default()).to_string();
